@@ -439,7 +439,20 @@ func (g *jsGen) expr(d int) string {
 		return "(" + op + g.paren(g.expr(d+1)) + ")"
 	case 14, 15:
 		c, a, b := g.expr(d+1), g.expr(d+1), g.expr(d+1)
-		switch r.Intn(8) {
+		switch r.Intn(12) {
+		case 8:
+			// unparenthesised conditional / assignment / arrow as the true or false body
+			v := g.someVar(false)
+			return "(" + v + "?" + g.someVar(false) + "?" + g.paren(a) + ":" + g.paren(b) + ":" + v + ")"
+		case 9:
+			v, w := g.someVar(false), g.someVar(true)
+			return "(" + v + "?" + w + "=" + g.paren(a) + ":" + v + ")"
+		case 10:
+			v, w := g.someVar(false), g.someVar(true)
+			return "(" + v + "?" + v + ":" + w + "=" + g.paren(b) + ")"
+		case 11:
+			v := g.someVar(false)
+			return "(" + v + "?()=>" + g.number() + ":" + v + ")"
 		case 0:
 			return "(" + c + ")?true:false"
 		case 1:
@@ -825,6 +838,11 @@ func (g *jsGen) stmt() string {
 		defer func() { g.inLoop-- }()
 		v := g.declare("var")
 		g.freeze(v)
+		if r.Bool() {
+			// string-literal index convertible to dot form followed by a parenthesised `in` inside a for initialiser
+			w := g.declare("var")
+			return "for(var " + v + "=G2[\"length\"]-2," + w + "=(\"a\" in {a:1});" + v + "<2;" + v + "++){h(" + g.nextSite() + "," + w + ");" + g.stmt() + "}"
+		}
 		return "var " + v + ";for(" + v + "=(\"a\" in {a:1})?0:1;" + v + "<2;" + v + "++)" + g.body()
 	case 21, 22:
 		// switch
